@@ -281,3 +281,25 @@ def drop_stream(env: Env, directory: str) -> None:
             models.db.session.commit()
     shutil.rmtree(env.blob_folder / directory, ignore_errors=True)
     env.streams.pop(directory, None)
+
+
+def add_mps(env: Env, name: str, title: str, periods: list[dict]) -> None:
+    """MultiPeriodStream rows, written the way the upstream fixtures do.
+    periods: [{"pid": str, "stream": directory, "start": seconds, "duration": seconds,
+               "tracks": [[content_type, track_id, role_name], ...]}]"""
+    import datetime as _dt
+    from dashlive.mpeg.dash.content_role import ContentRole
+    from dashlive.server import models
+    with env.app.app_context():
+        mps = models.MultiPeriodStream(name=name, title=title)
+        models.db.session.add(mps)
+        for idx, p in enumerate(periods, start=1):
+            stream = models.Stream.get(directory=p["stream"])
+            prd = models.Period(pid=p["pid"], parent=mps, ordering=idx, stream=stream,
+                                start=_dt.timedelta(seconds=p["start"]), duration=_dt.timedelta(seconds=p["duration"]))
+            models.db.session.add(prd)
+            for ttype, tid, role in p["tracks"]:
+                ct = models.ContentType.get(name=ttype)
+                models.db.session.add(models.AdaptationSet(
+                    period=prd, track_id=tid, role=ContentRole[role.upper()], content_type=ct))
+        models.db.session.commit()
